@@ -73,6 +73,10 @@ def make_shards(prop, cfg, seed, tier, root):
     corp = corpus_texts(prop, root)
     if corp:
         shards.append("".join(corp))
+    if cfg["target"] == "rust" and not cfg.get("gen"):
+        # deep / large-capacity histories, one per shard so that they run in parallel
+        for h in gen.gen_deep(prop, seed, tier):
+            shards.append(h.text())
     for s in range(nshard):
         hs = gen_histories(prop, cfg, seed, s, nhist, tier)
         if prop == "C10" and s == 0:
@@ -239,6 +243,16 @@ def verdict(prop, cfg, tier, seed, pr, results, runner, drv, t0, vp):
         assumptions=cfg.get("assumptions", []),
     )
     vp.write_evidence(prop, ev)
+    # keep the traces of failing shards only (disk space)
+    keep = set(x.get("dir") for x in divs if x.get("dir")) | set(d for d, _ in viols)
+    import shutil
+    for r in results:
+        if r["dir"] not in keep:
+            for f in ("model", "impl", "impl_rel", "viol_rel"):
+                try:
+                    os.remove(os.path.join(r["dir"], f))
+                except OSError:
+                    pass
     for l in out_lines:
         print(l)
     print(f"[{prop}] tier={tier} seed={seed} histories={n_hist} observations={n_obs} nontrivial={nontriv} "
